@@ -3,6 +3,7 @@ import Quanto.Spec.C01
 import Quanto.Spec.C04
 import Quanto.Spec.C02
 import Quanto.Spec.C06
+import Quanto.AwqBits
 open Quanto
 
 /-- scalar-or-per-element lookup -/
@@ -143,6 +144,34 @@ def handle (toks : List String) : String :=
       let ax : Axis := if axis == "none" then none else some (axis == "0")
       let g : Option Nat := if gs == "none" then none else some gs.toNat!
       (wfQBits ⟨q, ax, g, parseShape size, od, pb.toNat!, parseShape psz, parseShape pls, pld, parseShape ss, sd, parseShape zs, zd⟩).name
+  -- C15: awq <op> <shape> <data>   (words shown as signed integers)
+  | ["awq", op, shape, data] =>
+      let toPat (bits : Nat) (v : Int) : Nat := (v % (2 ^ bits : Int)).toNat
+      let fromPat (bits : Nat) (n : Nat) : Int := if n ≥ 2 ^ (bits - 1) then (n : Int) - 2 ^ bits else n
+      let raw := parseIntList data
+      let mk (bits : Nat) : T Nat := ⟨parseShape shape, (raw.map (toPat bits)).toArray⟩
+      let show_ (bits : Nat) (t : T Nat) : String := s!"{showShape t.shape} {showIntList (t.data.toList.map (fromPat bits))}"
+      match op with
+      | "pack1" => show_ 32 (awqPackV1 false (mk 8))
+      | "pack1r" => show_ 32 (awqPackV1 true (mk 8))
+      | "unpack1" => show_ 8 (awqUnpackV1 false (mk 32))
+      | "unpack1r" => show_ 8 (awqUnpackV1 true (mk 32))
+      | "pack2" => show_ 16 (awqPackV2 (mk 8))
+      | "ref" => show_ 16 (awqPackRef (mk 8))
+      | "unpack2" => show_ 8 (awqUnpackV2 (mk 16))
+      | _ => "bad-op"
+  -- awqbits N K gs codes scalebits zeros  (float16)
+  | ["awqbits", n, k, gs, cb, sb, zb] =>
+      let F := f16
+      let N := n.toNat!; let K := k.toNat!; let g := gs.toNat!
+      let rows := N * K / g
+      let q : QBits := ⟨4, true, some g, [N, K], ⟨[rows, g], (parseNatList cb).toArray⟩,
+                        parseFT F s!"{rows}x1" sb, ⟨[rows, 1], (parseIntList zb).toArray⟩⟩
+      let a := AwqBits.ofQBits F q
+      let d := a.dequantize F
+      let back := a.toQBits F 4
+      let fromPat (nn : Nat) : Int := if nn ≥ 2 ^ 15 then (nn : Int) - 2 ^ 16 else nn
+      s!"{showShape a.packed.shape} {showIntList (a.packed.data.toList.map fromPat)} {showShape a.scale.shape} {showFT F a.scale} {showFT F a.zs} {showShape d.shape} {showFT F d} {showShape back.data.shape} {showNatList back.data.data.toList} {showFT F back.scale} {showIntList back.zero.data.toList}"
   -- C04
   | ["pack", bits, shape, data] =>
       let t : T Nat := ⟨parseShape shape, (parseNatList data).toArray⟩
